@@ -43,6 +43,45 @@ def _numeric_literal(n):
     return False
 
 
+_IX = []
+
+
+def set_index(ix):
+    del _IX[:]
+    _IX.append(ix)
+
+
+def new_helpers_of(f, depth=2):
+    """functions that f calls (self.x(...) / x(...)) and that are new to the reviewed tree, transitively"""
+    if not _IX or known_functions() is None:
+        return []
+    ix = _IX[0]
+    known = known_functions()
+    out, todo, seen = [], [(f, 0)], {id(f.node)}
+    while todo:
+        cur, d = todo.pop(0)
+        for n in ast.walk(cur.node):
+            if not isinstance(n, ast.Call):
+                continue
+            g = None
+            dn = dotted(n.func)
+            if dn is None:
+                continue
+            if '.' not in dn:
+                r = ix.resolve_name(cur.module, dn)
+                if hasattr(r, 'qualname') and hasattr(r, 'node') and not hasattr(r, 'methods'):
+                    g = r
+            elif dn.split('.')[0] in ('self', 'cls') and dn.count('.') == 1 and cur.cls is not None:
+                g = ix.lookup_method(cur.cls, dn.split('.')[1])
+            if g is None or g.site in known or id(g.node) in seen:
+                continue
+            seen.add(id(g.node))
+            out.append(g)
+            if d + 1 < depth:
+                todo.append((g, d + 1))
+    return out
+
+
 _KNOWN = []
 
 
@@ -294,6 +333,20 @@ def need(R, oid, rule, site, stmt, f, patterns, binding=None, loc=None, under=No
     from .pattern import find, parse_pattern, _match
     nodes = []
     b, missing = find(f.node, patterns, binding, nodes_out=nodes)
+    if b is None and binding is None:
+        # the statements may have been moved into a helper that is new to the reviewed tree: look there
+        for g in new_helpers_of(f):
+            nodes = []
+            b, missing2 = find(g.node, patterns, None, nodes_out=nodes)
+            if b is not None:
+                f = g
+                break
+        if b is None and new_helpers_of(f):
+            # part of the construct may sit in the helper and part in the caller: not something the pattern
+            # matcher can follow, and not evidence that the construct is gone
+            raise AnalysisError('%s now calls %s (new to the reviewed tree); the expected statements are not found '
+                                'in one function: %s' % (f.qualname, [g.qualname for g in new_helpers_of(f)],
+                                                         [m[:60] for m in missing]))
     cond = []
     if b is not None and under != '*':
         parent = {}
